@@ -64,6 +64,7 @@ inline Msg gen_request(Rng& r, size_t max_size)
     int nq = static_cast<int>(r.below(5));
     for (int i = 0; i < nq; ++i) {
         query += (i ? "&" : "?");
+        if (r.chance(0.08)) continue; // an empty parameter: "?&a=1", "a=1&&b=2", a trailing "&"
         query += "k" + std::to_string(i) + token(r, 0, 4);
         int v = static_cast<int>(r.below(3));
         if (v == 1) query += "=";
